@@ -57,7 +57,9 @@ CONSTANTS Watchers,             \* subset of {"sup", "rctc"}
           Recover,
           ChanCap,              \* buffer of ObjectEntityWatcher.eventChan
           DropWhenFull,         \* FALSE: blocking send (the code); TRUE: non-blocking send that drops the event
-          AtomicRegister        \* TRUE: NewWatcher is one critical section (the code); FALSE: copy, then register later
+          AtomicRegister,       \* TRUE: NewWatcher is one critical section (the code); FALSE: copy, then register later
+          SkipEmpty             \* FALSE: ObjectRegistry.run applies every snapshot (the code); TRUE: it ignores a snapshot
+                                \* without any object
 
 StoreOf(k) == IF k \in BizKinds THEN "biz" ELSE IF k \in PipeKinds THEN "pipe" ELSE "gate"
 Stores == {"biz", "gate", "pipe"}
@@ -97,6 +99,18 @@ IInit ==
     /\ dead = [w \in Watchers |-> FALSE]
     /\ npanic = 0 /\ bad = FALSE /\ badcb = [op |-> "none"]
 
+(* ---- ObjectRegistry.run: `case kv := <-or.configSyncChan` ---- *)
+(* The registry goroutine hands every map it receives to applyConfig - also the map without any   *)
+(* entry: the configuration in which the last objects have disappeared is a snapshot like every   *)
+(* other.  SkipEmpty = TRUE is the shape in which such a map is taken for "nothing was pulled" and *)
+(* ignored: no delete event is ever sent for the last objects, and because or.entities stays as   *)
+(* it is, the same names coming back with the same spec count as unchanged: TLC rejects it.       *)
+Ignored(s, pan) ==
+    /\ SkipEmpty /\ s = [x \in Names |-> None]
+    /\ npanic' = npanic + Cardinality(pan)
+    /\ CSnapshot(s)
+    /\ UNCHANGED <<entities, wents, queue, cur, store, reg, dead, bad, badcb>>
+
 (* ---- ObjectRegistry.applyConfig ---- *)
 ApplyConfig(s, pan) ==
     LET nb       == step + 1
@@ -117,6 +131,7 @@ ApplyConfig(s, pan) ==
         Empty(e) == e.del = NoMap /\ e.cre = NoMap /\ e.upd = NoMap
         Full(w)  == Len(queue[w]) >= ChanCap
     IN
+    /\ ~(SkipEmpty /\ s = [x \in Names |-> None])
     (* blocking send: the registry gets on only when every watcher that is sent an event has room *)
     /\ DropWhenFull \/ \A w \in Watchers : Empty(Ev[w]) \/ ~Full(w)
     /\ entities' = [x \in Names |-> IF x \in gone THEN NoEnt ELSE IF x \in changed THEN NewEnt(x) ELSE entities[x]]
@@ -216,7 +231,7 @@ PanSets(s) == {p \in SUBSET {x \in Names : Trans(snap[x], s[x]) \notin {"absent"
                   Cardinality(p) + npanic <= MaxPanics}
 
 INext ==
-    \/ (step < MaxSnaps /\ \E s \in Snapshots : \E pan \in PanSets(s) : ApplyConfig(s, pan))
+    \/ (step < MaxSnaps /\ \E s \in Snapshots : \E pan \in PanSets(s) : ApplyConfig(s, pan) \/ Ignored(s, pan))
     \/ \E w \in Watchers : Register(w) \/ RegCopy(w) \/ RegDone(w)
     \/ \E w \in Watchers : Start(w)
     \/ \E w \in Watchers, x \in Names : HDelete(w, x) \/ HCreate(w, x) \/ HUpdate(w, x)
